@@ -16,6 +16,8 @@ CONSTANTS NS,        \* number of samples
           UseImpl
 
 Impl == IF UseImpl THEN JsonDeserialize(IOEnv.IMPL_FILE) ELSE <<>>
+\* evaluated once, single-threaded, before the workers start (TLC caches the value of a constant definition)
+ASSUME ImplLoaded == UseImpl => Len(Impl) > 0
 
 VARIABLES sig, pos, B, first, stage, ext, zx, rows, agree
 vars == <<sig, pos, B, first, stage, ext, zx, rows, agree>>
@@ -36,15 +38,20 @@ FindExtrema ==
        ELSE ext' = ext /\ stage' = "undefined"
   /\ UNCHANGED <<sig, pos, B, first, zx, rows, agree>>
 
-E == Impl[Index + 1]
-ExtAgrees(e) == e.ok = 1 /\ e.pk = SetMask({ ext[1][k] : k \in 1 .. Len(ext[1]) }) /\ e.tr = SetMask({ ext[2][k] : k \in 1 .. Len(ext[2]) })
+\* The table is one flat sequence of integers, K per input (TLC copies constant values per worker; flat integers keep it small):
+\*   1-3  find_extrema with non-positive filtered samples = -1.0: ok, peak mask, trough mask
+\*   4-6  the same with non-positive samples = exact 0.0
+\*   7-8  compute_cyclepoints: ok, number of rows;  9-11 up to three rows, each the base-NS number of its six cyclepoints
+K == 11
+EI(j) == Impl[Index * K + j]
+ExtAgrees(o) == EI(o + 1) = 1 /\ EI(o + 2) = SetMask({ ext[1][k] : k \in 1 .. Len(ext[1]) }) /\ EI(o + 3) = SetMask({ ext[2][k] : k \in 1 .. Len(ext[2]) })
 
 \* the real find_extrema must return exactly the specified extrema, whether a non-positive filtered sample is -1 or an exact 0
 JudgeExtrema ==
   /\ stage = "extrema"
-  /\ LET ok == ~UseImpl \/ (ExtAgrees(E.ext_neg) /\ ExtAgrees(E.ext_zero)) IN
+  /\ LET ok == ~UseImpl \/ (ExtAgrees(0) /\ ExtAgrees(3)) IN
        /\ agree' = (agree /\ ok)
-       /\ IF ~ok THEN PrintT(<<"DISAGREE", Index, "find_extrema", sig, pos, B, first, ext, E.ext_neg, E.ext_zero>>) ELSE TRUE
+       /\ IF ~ok THEN PrintT(<<"DISAGREE", Index, "find_extrema", sig, pos, B, first, ext, <<EI(1), EI(2), EI(3)>>, <<EI(4), EI(5), EI(6)>>>>) ELSE TRUE
   /\ stage' = "judged_extrema"
   /\ UNCHANGED <<sig, pos, B, first, ext, zx, rows>>
 
@@ -63,12 +70,12 @@ Assemble ==
        ELSE rows' = rows /\ stage' = "done"
   /\ UNCHANGED <<sig, pos, B, first, ext, zx, agree>>
 
-RowSeq(r) == <<r.last, r.lastzx, r.zx1, r.centre, r.zx2, r.next>>
+RowCode(r) == ((((r.last * NS + r.lastzx) * NS + r.zx1) * NS + r.centre) * NS + r.zx2) * NS + r.next
 JudgeRows ==
   /\ stage = "rows"
-  /\ LET ok == ~UseImpl \/ (E.cyc.ok = 1 /\ E.cyc.rows = [k \in 1 .. Len(rows) |-> RowSeq(rows[k])]) IN
+  /\ LET ok == ~UseImpl \/ (EI(7) = 1 /\ EI(8) = Len(rows) /\ Len(rows) <= 3 /\ \A k \in 1 .. Len(rows) : EI(8 + k) = RowCode(rows[k])) IN
        /\ agree' = (agree /\ ok)
-       /\ IF ~ok THEN PrintT(<<"DISAGREE", Index, "compute_cyclepoints", sig, pos, B, first, rows, E.cyc>>) ELSE TRUE
+       /\ IF ~ok THEN PrintT(<<"DISAGREE", Index, "compute_cyclepoints", sig, pos, B, first, rows, <<EI(7), EI(8), EI(9), EI(10), EI(11)>>>>) ELSE TRUE
   /\ stage' = "done"
   /\ UNCHANGED <<sig, pos, B, first, ext, zx, rows>>
 
